@@ -225,3 +225,204 @@ func wheelShape[K comparable, V any](w [][]node.Node[K, V], n int) bool {
 //@   ensures [C06:expirations-notified-one-to-one] $EVDELTA == pre($EVDELTA)
 //@   ensures [C13:time-advanced] v.time == uint64(nowNanos)
 //@   ensures [C13:sweeps-levels-until-first-idle] ghost_calls_deleteExpiredFromBucket() == pre(ghost_calls_deleteExpiredFromBucket()) + levelsToSweep(pre(v.time), uint64(nowNanos))
+
+// ---------------------------------------------------------------------------------------------
+// Bounded stand-in for A-ring (NOT a proof): the real link / unlink / Delete code is executed symbolically
+// (`bodies`: the contracts of this package are switched off) on every bucket ring of at most three timers built by
+// the real link, followed by one more link or by the removal of any member or of an unscheduled node.
+// Bound: <= 3 timers in one bucket (+ one outside node), one operation after construction.
+// ---------------------------------------------------------------------------------------------
+
+// ring: root's bucket holds exactly s0..s(n-1), in this order
+func ring[K comparable, V any](r, s0, s1, s2, s3 node.Node[K, V], n int) bool {
+	switch n {
+	case 0:
+		return r.NextExp() == r && r.PrevExp() == r
+	case 1:
+		return r.NextExp() == s0 && s0.NextExp() == r && r.PrevExp() == s0 && s0.PrevExp() == r
+	case 2:
+		return r.NextExp() == s0 && s0.NextExp() == s1 && s1.NextExp() == r && r.PrevExp() == s1 && s1.PrevExp() == s0 && s0.PrevExp() == r
+	case 3:
+		return r.NextExp() == s0 && s0.NextExp() == s1 && s1.NextExp() == s2 && s2.NextExp() == r &&
+			r.PrevExp() == s2 && s2.PrevExp() == s1 && s1.PrevExp() == s0 && s0.PrevExp() == r
+	case 4:
+		return r.NextExp() == s0 && s0.NextExp() == s1 && s1.NextExp() == s2 && s2.NextExp() == s3 && s3.NextExp() == r &&
+			r.PrevExp() == s3 && s3.PrevExp() == s2 && s2.PrevExp() == s1 && s1.PrevExp() == s0 && s0.PrevExp() == r
+	}
+	return false
+}
+
+func rbuild[K comparable, V any](r, a, b, c node.Node[K, V], m int) {
+	if m >= 1 {
+		link(r, a)
+	}
+	if m >= 2 {
+		link(r, b)
+	}
+	if m >= 3 {
+		link(r, c)
+	}
+}
+
+func rpick[K comparable, V any](a, b, c, x node.Node[K, V], i int) node.Node[K, V] {
+	switch i {
+	case 0:
+		return a
+	case 1:
+		return b
+	case 2:
+		return c
+	}
+	return x
+}
+
+func rBuild[K comparable, V any](r, a, b, c node.Node[K, V], m int) { rbuild(r, a, b, c, m) }
+
+func rLink[K comparable, V any](r, a, b, c, x node.Node[K, V], m int) {
+	rbuild(r, a, b, c, m)
+	link(r, x)
+}
+
+func rDelete[K comparable, V any](v *Variable[K, V], r, a, b, c, x node.Node[K, V], m, i int) {
+	rbuild(r, a, b, c, m)
+	v.Delete(rpick(a, b, c, x, i))
+}
+
+func okRLink[K comparable, V any](r, a, b, c, x node.Node[K, V], m int) bool {
+	switch m {
+	case 0:
+		return ring(r, x, nil, nil, nil, 1)
+	case 1:
+		return ring(r, a, x, nil, nil, 2)
+	case 2:
+		return ring(r, a, b, x, nil, 3)
+	}
+	return ring(r, a, b, c, x, 4)
+}
+
+func okRDelete[K comparable, V any](r, a, b, c, x node.Node[K, V], m, i int) bool {
+	n := rpick(a, b, c, x, i)
+	if n.NextExp() != nil || n.PrevExp() != nil {
+		return false
+	}
+	if i >= m {
+		return ring(r, a, b, c, nil, m)
+	}
+	switch i {
+	case 0:
+		return ring(r, b, c, nil, nil, m-1)
+	case 1:
+		return ring(r, a, c, nil, nil, m-1)
+	}
+	return ring(r, a, b, nil, nil, m-1)
+}
+
+
+//@ func rBuild : C13 C05
+//@   bounded bucket rings of at most 3 timers built by link
+//@   bodies
+//@   var x node.Node[K, V]
+//@   requires r != nil
+//@   requires a != nil
+//@   requires b != nil
+//@   requires c != nil
+//@   requires x != nil
+//@   requires r != a
+//@   requires r != b
+//@   requires r != c
+//@   requires r != x
+//@   requires a != b
+//@   requires a != c
+//@   requires a != x
+//@   requires b != c
+//@   requires b != x
+//@   requires c != x
+//@   requires m >= 0
+//@   requires m <= 3
+//@   requires ghost_hasExp()
+//@   requires ghost_hasExpLinks()
+//@   requires r.NextExp() == r
+//@   requires r.PrevExp() == r
+//@   requires a.PrevExp() == nil
+//@   requires a.NextExp() == nil
+//@   requires b.PrevExp() == nil
+//@   requires b.NextExp() == nil
+//@   requires c.PrevExp() == nil
+//@   requires c.NextExp() == nil
+//@   requires x.PrevExp() == nil
+//@   requires x.NextExp() == nil
+//@   modifies *
+//@   ensures [bounded:links-append-to-the-bucket] ring(r, a, b, c, nil, m) && x.NextExp() == nil && x.PrevExp() == nil
+
+//@ func rLink : C13 C05
+//@   bounded bucket rings of at most 3 timers, one more link
+//@   bodies
+//@   requires r != nil
+//@   requires a != nil
+//@   requires b != nil
+//@   requires c != nil
+//@   requires x != nil
+//@   requires r != a
+//@   requires r != b
+//@   requires r != c
+//@   requires r != x
+//@   requires a != b
+//@   requires a != c
+//@   requires a != x
+//@   requires b != c
+//@   requires b != x
+//@   requires c != x
+//@   requires m >= 0
+//@   requires m <= 3
+//@   requires ghost_hasExp()
+//@   requires ghost_hasExpLinks()
+//@   requires r.NextExp() == r
+//@   requires r.PrevExp() == r
+//@   requires a.PrevExp() == nil
+//@   requires a.NextExp() == nil
+//@   requires b.PrevExp() == nil
+//@   requires b.NextExp() == nil
+//@   requires c.PrevExp() == nil
+//@   requires c.NextExp() == nil
+//@   requires x.PrevExp() == nil
+//@   requires x.NextExp() == nil
+//@   modifies *
+//@   ensures [bounded:link-appends] okRLink(r, a, b, c, x, m)
+
+//@ func rDelete : C13 C05
+//@   bounded bucket rings of at most 3 timers, Variable.Delete of any member or of an unscheduled node
+//@   bodies
+//@   requires r != nil
+//@   requires a != nil
+//@   requires b != nil
+//@   requires c != nil
+//@   requires x != nil
+//@   requires r != a
+//@   requires r != b
+//@   requires r != c
+//@   requires r != x
+//@   requires a != b
+//@   requires a != c
+//@   requires a != x
+//@   requires b != c
+//@   requires b != x
+//@   requires c != x
+//@   requires m >= 0
+//@   requires m <= 3
+//@   requires ghost_hasExp()
+//@   requires ghost_hasExpLinks()
+//@   requires r.NextExp() == r
+//@   requires r.PrevExp() == r
+//@   requires a.PrevExp() == nil
+//@   requires a.NextExp() == nil
+//@   requires b.PrevExp() == nil
+//@   requires b.NextExp() == nil
+//@   requires c.PrevExp() == nil
+//@   requires c.NextExp() == nil
+//@   requires x.PrevExp() == nil
+//@   requires x.NextExp() == nil
+//@   requires v != nil
+//@   requires i >= 0
+//@   requires i <= 3
+//@   modifies *
+//@   ensures [bounded:delete-unlinks-exactly-that-timer] okRDelete(r, a, b, c, x, m, i)
